@@ -27,6 +27,7 @@ ASSUMPTIONS = [
 ]
 REQUIRED = {"v2.meaning": {"quick": 3000, "thorough": 100000}, "v2.print_roundtrip": {"quick": 3000, "thorough": 100000},
             "v2.config_substitution": 100, "v2.empty_selects_all": 3, "v2.list_form": 300}
+REQUIRED_SEEN = {"config_list_shape": ["placeholder_after_plain_part", "other"]}
 EXHAUSTIVE = {"quick": True, "thorough": True}
 EXHAUSTIVE_SCOPE = "all binary and/or/not trees up to the leaf bound over the operand set, complete truth tables"
 
@@ -109,13 +110,26 @@ def check_config(lab, mon, cfg_ast, rest_ast, rng, tmpl_index, as_list):
     tags_text = (tmpl % rest_text if "%s" in tmpl else tmpl).replace("{c}", "{config.tags}")
     want_ast = build(cfg_ast, rest_ast)
     want = T.truth_table(want_ast, SUBSETS)
-    case = {"kind": "config", "config_tags": cfg_text, "tags": tags_text, "as_list": as_list}
+    parts = None
+    if as_list == "multi":
+        # several --tags options: parts without the placeholder before / between / after parts that use it
+        parts = [(tags_text, want_ast)]
+        for _ in range(rng.randint(1, 2)):
+            extra = T.random_tree(rng, OPERANDS, rng.choice([0, 1, 2]), nary=True)
+            parts.insert(rng.randrange(len(parts) + 1), (T.render_v2(extra, rng, "full", False), extra))
+        if rng.random() < 0.5:
+            parts.insert(rng.randrange(len(parts) + 1), ("{config.tags}", cfg_ast))
+        want_ast = ["and"] + [a for _t, a in parts]
+        want = T.truth_table(want_ast, SUBSETS)
+        mon.seen("config_list_shape", "placeholder_after_plain_part"
+                 if any("{config.tags}" in t for t, _a in parts[1:]) and "{config.tags}" not in parts[0][0] else "other")
+    case = {"kind": "config", "config_tags": cfg_text, "tags": [t for t, _a in parts] if parts else tags_text, "as_list": as_list}
     mon.case(case, True)
     saved = getattr(lab.P, "_current", None)
     try:
         config = Configuration([], load_config=False, tag_expression_protocol=lab.P.V2)
         config.config_tags = [cfg_text] if as_list else cfg_text
-        config.tags = [tags_text] if as_list else tags_text
+        config.tags = [t for t, _a in parts] if parts else ([tags_text] if as_list else tags_text)
         config.setup_tag_expression()
         got = T.truth_table_of(config.tag_expression.check, SUBSETS)
         mon.check("v2.config_substitution", got == want,
@@ -185,7 +199,7 @@ def run(spec, mon):
     for j in range(nconfig):
         c = T.random_tree(rng, OPERANDS, rng.choice([0, 1, 2]), nary=True)
         r = T.random_tree(rng, OPERANDS, rng.choice([0, 1, 2]), nary=True)
-        check_config(lab, mon, c, r, rng, j % len(TEMPLATES), as_list=(j % 3 == 0))
+        check_config(lab, mon, c, r, rng, j % len(TEMPLATES), as_list=("multi" if j % 3 == 1 else (j % 3 == 0)))
     if shard == 0:
         ast = ["and", ["or", ["lit", "a"], ["not", ["glob", "a*"]]], ["not", ["lit", "k=v"]]]
         mon.sample({"ast": ast, "text": T.render_v2(ast, rng, "min", True),
